@@ -1,4 +1,7 @@
 import Qats.Model.Pipeline
+import Qats.Lemmas.PipelineGet
+import Qats.Lemmas.PipelineInterp
+import Qats.Lemmas.PipelineGrid
 import Mathlib.Tactic
 import Mathlib.Algebra.Order.Floor.Ring
 /-!
@@ -7,6 +10,7 @@ Main lemmas behind the C11 property theorems (statements fixed by `Qats/Props/C1
 -/
 namespace Qats.Pipeline
 set_option linter.unusedSectionVars false
+set_option linter.unusedVariables false
 variable {α : Type} [Field α] [LinearOrder α] [IsStrictOrderedRing α]
 
 /-- A rounding function to the nearest integer (Python's `round`; which way ties go is irrelevant here). -/
@@ -20,32 +24,33 @@ def Increasing (t : List α) : Prop := t.Pairwise (· < ·)
 /-- The windowed arrays have equal length and are exactly the sample pairs whose time lies in the closed window, in order. -/
 theorem window_spec' (a b : α) (t x : List α) (hl : t.length = x.length) :
     (window a b t x).1.length = (window a b t x).2.length ∧
-    List.zip (window a b t x).1 (window a b t x).2 = (List.zip t x).filter (fun p => decide (a ≤ p.1 ∧ p.1 ≤ b)) := by
-  sorry
+    List.zip (window a b t x).1 (window a b t x).2 = (List.zip t x).filter (fun p => decide (a ≤ p.1 ∧ p.1 ≤ b)) :=
+  ⟨window_len a b t x, window_zip a b t x⟩
 
 /-! ### interpolation -/
 
 theorem interp_at_nodes' (t x : List α) (hl : t.length = x.length) (ht : Increasing t) (i : Nat) (ti xi : α)
-    (hti : t[i]? = some ti) (hxi : x[i]? = some xi) : interp t x ti = some xi := by
-  sorry
+    (hti : t[i]? = some ti) (hxi : x[i]? = some xi) : interp t x ti = some xi :=
+  interp_nodes t x hl ht i ti xi hti hxi
 
 /-- Between two consecutive nodes the value is the linear interpolant (hence a convex combination of the neighbours). -/
 theorem interp_between' (t x : List α) (hl : t.length = x.length) (ht : Increasing t) (i : Nat) (t0 t1 x0 x1 q : α)
     (h0 : t[i]? = some t0) (h1 : t[i + 1]? = some t1) (hx0 : x[i]? = some x0) (hx1 : x[i + 1]? = some x1)
     (hq0 : t0 ≤ q) (hq1 : q ≤ t1) :
     interp t x q = some (x0 + (x1 - x0) / (t1 - t0) * (q - t0)) ∧
-      min x0 x1 ≤ x0 + (x1 - x0) / (t1 - t0) * (q - t0) ∧ x0 + (x1 - x0) / (t1 - t0) * (q - t0) ≤ max x0 x1 := by
-  sorry
+      min x0 x1 ≤ x0 + (x1 - x0) / (t1 - t0) * (q - t0) ∧ x0 + (x1 - x0) / (t1 - t0) * (q - t0) ≤ max x0 x1 :=
+  ⟨interp_seg t x ht i t0 t1 x0 x1 q h0 h1 hx0 hx1 hq0 hq1,
+    lerp_bounds t0 t1 x0 x1 q (pairwise_consecutive t ht i t0 t1 h0 h1) hq0 hq1⟩
 
 /-- No extrapolation: outside `[t₀, t_last]` there is no value (the code raises). -/
 theorem interp_outside' (t x : List α) (hl : t.length = x.length) (ht : Increasing t) (lo hi q : α)
-    (hlo : t.head? = some lo) (hhi : t.getLast? = some hi) (hq : q < lo ∨ hi < q) : interp t x q = none := by
-  sorry
+    (hlo : t.head? = some lo) (hhi : t.getLast? = some hi) (hq : q < lo ∨ hi < q) : interp t x q = none :=
+  hq.elim (fun h => interp_below t x hl lo q hlo h) (fun h => interp_above t x hl ht hi q hhi h)
 
 /-- Inside the span there always is a value. -/
 theorem interp_inside' (t x : List α) (hl : t.length = x.length) (ht : Increasing t) (lo hi q : α)
-    (hlo : t.head? = some lo) (hhi : t.getLast? = some hi) (h0 : lo ≤ q) (h1 : q ≤ hi) : ∃ v, interp t x q = some v := by
-  sorry
+    (hlo : t.head? = some lo) (hhi : t.getLast? = some hi) (h0 : lo ≤ q) (h1 : q ≤ hi) : ∃ v, interp t x q = some v :=
+  interp_in t x hl lo hi q hlo hhi h0 h1
 
 /-! ### the resampling grid -/
 
@@ -58,15 +63,15 @@ theorem grid_spec' (rnd : α → Int) (hr : IsRound rnd) (t0 t1 d : α) (h01 : t
     (newTimearray rnd t0 t1 d).length = k + 1 ∧
     (newTimearray rnd t0 t1 d).head? = some t0 ∧ (newTimearray rnd t0 t1 d).getLast? = some t1 ∧
     (∀ i, i ≤ k → (newTimearray rnd t0 t1 d)[i]? = some (t0 + (i : α) * ((t1 - t0) / (k : α)))) ∧
-    |((k : Nat) : α) - (t1 - t0) / d| ≤ 1 / 2 := by
-  sorry
+    |((k : Nat) : α) - (t1 - t0) / d| ≤ 1 / 2 :=
+  grid_spec_aux rnd hr t0 t1 d hk
 
 /-! ### the pipeline -/
 
 /-- Without options the stored arrays are returned. -/
 theorem get_no_options' (rnd : α → Int) (st : Stages α) (t x : List α) :
-    get rnd st t x {} = .ok (t, x) := by
-  sorry
+    get rnd st t x {} = .ok (t, x) :=
+  get_no_options_aux rnd st t x
 
 /-- Stage order and the filter's sampling interval: with a window only (uniform series or no filter), the result is
 `smooth (filter (t'[1] − t'[0]) (taper x'))` on the windowed arrays `(t', x')`, each stage applied iff requested. -/
@@ -77,8 +82,8 @@ theorem get_window_stages' (rnd : α → Int) (st : Stages α) (t x : List α) (
       .ok ((window a b t x).1,
         (fun v => if sm then st.smooth v else v)
           ((fun v => if fl then st.filter (t1 - t0) v else v)
-            ((fun v => if tp then st.taper v else v) (window a b t x).2))) := by
-  sorry
+            ((fun v => if tp then st.taper v else v) (window a b t x).2))) :=
+  get_window_stages_aux rnd st t x a b tp fl sm hc t0 t1 rest hw
 
 /-- Resampling to a step after windowing: the grid runs from the first to the last retained sample, the data are the
 linear interpolation of the *stored* series on it, then taper → filter (with the grid's spacing) → smooth. -/
@@ -91,23 +96,23 @@ theorem get_resample_step_stages' (rnd : α → Int) (st : Stages α) (t x : Lis
       .ok (g0 :: g1 :: grest,
         (fun v => if sm then st.smooth v else v)
           ((fun v => if fl then st.filter (g1 - g0) v else v)
-            ((fun v => if tp then st.taper v else v) xs))) := by
-  sorry
+            ((fun v => if tp then st.taper v else v) xs))) :=
+  get_resample_step_stages_aux rnd st t x tw d tp fl sm lo hi g0 g1 grest xs hlo hhi hg hi'
 
 /-- Resampling to a given array: the returned time is that array, the data its interpolation; outside the stored span
 the call fails instead of extrapolating; combining it with a window is refused. -/
 theorem get_resample_times' (rnd : α → Int) (st : Stages α) (t x ts : List α) :
     (∀ xs, interpAll t x ts = some xs → get rnd st t x { resample := some (.times ts) } = .ok (ts, xs)) ∧
     (interpAll t x ts = none → get rnd st t x { resample := some (.times ts) } = .error .bounds) ∧
-    (∀ a b, get rnd st t x { twin := some (a, b), resample := some (.times ts) } = .error .assertion) := by
-  sorry
+    (∀ a b, get rnd st t x { twin := some (a, b), resample := some (.times ts) } = .error .assertion) :=
+  get_resample_times_aux rnd st t x ts
 
 /-- Time and data always have equal length (for stages that keep the length, as taper / filters / smoothing do). -/
 theorem get_equal_length' (rnd : α → Int) (st : Stages α) (t x : List α) (o : Opts α) (hl : t.length = x.length)
     (hst : (∀ v, (st.taper v).length = v.length) ∧ (∀ dt v, (st.filter dt v).length = v.length) ∧
       (∀ v, (st.smooth v).length = v.length))
-    (t' x' : List α) (h : get rnd st t x o = .ok (t', x')) : t'.length = x'.length := by
-  sorry
+    (t' x' : List α) (h : get rnd st t x o = .ok (t', x')) : t'.length = x'.length :=
+  get_equal_length_aux rnd st t x o hl hst t' x' h
 
 /-! ### stand-alone resampling -/
 
@@ -116,7 +121,7 @@ theorem get_equal_length' (rnd : α → Int) (st : Stages α) (t x : List α) (o
 theorem resample_step_inside' [FloorRing α] (t x : List α) (hl : t.length = x.length) (ht : Increasing t) (lo hi d : α)
     (hlo : t.head? = some lo) (hhi : t.getLast? = some hi) (hd : 0 < d) (hdur : d ≤ hi - lo) :
     (∀ q ∈ arange lo d (Nat.ceil ((hi - lo) / d)), lo ≤ q ∧ q < hi) ∧
-    ∃ xs, resampleStep t x d (Nat.ceil ((hi - lo) / d)) = some xs ∧ xs.length = Nat.ceil ((hi - lo) / d) := by
-  sorry
+    ∃ xs, resampleStep t x d (Nat.ceil ((hi - lo) / d)) = some xs ∧ xs.length = Nat.ceil ((hi - lo) / d) :=
+  ⟨arange_inside lo hi d hd, resample_step_aux t x hl lo hi d hlo hhi hd⟩
 
 end Qats.Pipeline
